@@ -35,12 +35,12 @@ Definition apply_effect (e : envt) (m : cmsg) (t : tx) (w : wstate) : option (ws
 Definition on_error_proof (e : envt) (m : cmsg) (w : wstate) : wstate * list body :=
   (w, match e with None => [] | Some l => l end).
 
-Definition c_verify := verify body sigd valset calldata tx b_kind expected_calldata expected_deploy calldata_eqb.
-Definition c_step := step body sigd valset calldata Z tx wstate envt b_kind expected_calldata expected_deploy
+Definition c_verify := verify body sigd valset calldata tx b_kind b_fees_present expected_calldata expected_deploy calldata_eqb.
+Definition c_step := step body sigd valset calldata Z tx wstate envt b_kind b_fees_present expected_calldata expected_deploy
   calldata_eqb Z.eqb fst snd valset_at snd apply_effect on_error_proof.
-Definition c_attest := attest body sigd valset calldata Z tx wstate envt b_kind expected_calldata expected_deploy
+Definition c_attest := attest body sigd valset calldata Z tx wstate envt b_kind b_fees_present expected_calldata expected_deploy
   calldata_eqb Z.eqb fst snd valset_at snd apply_effect on_error_proof.
-Definition c_endblock := endblock body sigd valset calldata Z tx wstate envt b_kind expected_calldata expected_deploy
+Definition c_endblock := endblock body sigd valset calldata Z tx wstate envt b_kind b_fees_present expected_calldata expected_deploy
   calldata_eqb Z.eqb fst snd valset_at snd apply_effect on_error_proof.
 
 (* ---------- recorded operations ---------- *)
@@ -81,7 +81,7 @@ Definition res_class (r : result) : Z :=
   end.
 
 Record obs := {
-  o_res : Z;                 (* class for XAttest; 0 / 4 (loop aborted) for XEndBlock; 0 otherwise *)
+  o_res : Z;                 (* class for XAttest; 0 otherwise (the end-blocker loop returns nil) *)
   o_queue : list Z;          (* ids in the turnstone queue, ascending *)
   o_processed : list Z;      (* hash ids of the transactions of this history that are marked processed, ascending *)
   o_relay : list (Z * bool); (* metrix records (message id, success), by message id *)
@@ -121,7 +121,7 @@ Definition apply_cop (s : cstate) (o : cop) : cstate * Z :=
   | XSkip k => (skip_ids s (Z.to_nat k), 0)
   | XCompass b => (c_step s (OpWorld _ _ _ _ _ (set_compass b)), 0)
   | XAttest id e => let '(s', r) := c_attest s id (env_of e) in (s', res_class r)
-  | XEndBlock l => let '(s', ok) := c_endblock s (env_lookup l) in (s', if ok then 0 else 4)
+  | XEndBlock l => (c_endblock s (env_lookup l), 0)
   end.
 
 (* ---------- projections of the model state ---------- *)
